@@ -66,11 +66,41 @@
 //                  sched_vehicles, not about vehicle_ids_grouped_and_sorted)
 //   (no precondition on the counter: D11 is fixed in /repo, the operation refuses when an id is needed and none is left)
 //
-// NOT covered: preservation of rs_ok / listed_ok as a whole (only ids_ok, usage_exact, the transition clauses and -- in the
-//   whole-tour case -- sortedness of the vehicle's id list are shown for the result); connectedness of the new dummy tour
+// CLOSURE (the induction step of C10 "after any sequence of schedule modifications" and C09 / C11 "for every reachable schedule /
+//   candidate"; obligations `C10.remove_segment.result_satisfies_the_schedule_invariants_again`): on Ok the result satisfies the
+//   schedule-invariant bundle rs_ok AGAIN, both cases (partial / whole-tour), conjunct by conjunct, proved from the effect clauses of
+//   this contract (bundled as rs_effect) by the lemmas of block CLOSURE in env/remove_segment_shim.vs (lemma_closure_*); in the
+//   whole-tour case from the effect clauses of the stub of replace_vehicle_by_dummy, not from closure clauses of that stub.
+//   "Schedule invariant" = rs_ok (sched_ok, ids_ok, formations_ok, transitions_ok, usage_exact).  "About the arguments" (not a
+//   target): network.has(segment ends), shrunk_counter_ok (A-counter: the shrunk tour), tfu_pre for the removed nodes, listed_ok
+//   for the vehicle that goes.
+//     proved, no extra hypothesis:  so_network (network wf, depots_ok; the network is the same), so_vehicles (every stored tour is
+//        the valid tour of a real vehicle whose type's cycle structure is consistent and holds it), ids_ok, formations_ok,
+//        transitions_ok (including the magnitude "fewer than 2^17 vehicles in the cycles": no vehicle is added, lemma_total_len_le
+//        counts the vehicles of a cycle structure), usage_exact w.r.t. the result's own network; plus listings_kept (not a conjunct
+//        of rs_ok: every vehicle that stays and satisfied listed_ok still does -- the whole-tour-case precondition of the NEXT call)
+//     proved under the premise A-listing = listing_exact(result) (the listing of the result is duplicate-free and lists exactly the
+//        vehicles with a tour -- these two conjuncts of sched_ok THEMSELVES: sched_vehicles is an uninterpreted function of the
+//        schedule, nothing about the listing of the result follows from any effect clause):  at most 2^17 listed vehicles, and
+//        C09 tours_costs(result) <= result.costs (so_listing, so_costs_cover; sums over duplicate-free listings are order
+//        independent: lemma_pre_costs_perm).  A sufficient condition for A-listing in terms of the OLD listing is proved too:
+//        listing_follows (listing unchanged in the partial case / one occurrence of the id taken out in the whole-tour case)
+//     magnitude costs <= 2^61 (so_costs_small):  an invariant of the whole-tour case (the costs shrink by the tour's costs) and of
+//        the partial case when the shrunk tour does not cost more than the old one; otherwise NOT an invariant of the operation
+//        (closing the gap may cost more than the removed legs; no triangle inequality) -- there it is the premise
+//        `result.costs <= sched_cost_bound()`
+//     rs_ok(result) as the next modification requires it:  under A-listing and `result.costs <= sched_cost_bound()`
+//   add_dummy_tour: its only schedule invariant (sorted id list) is re-established (C10.add_dummy_tour.…); Tour::new_dummy,
+//   next_free_idx, the small getters: no schedule invariant among their preconditions.
+//
+// NOT covered: the two listing conjuncts of sched_ok for the RESULT (premise A-listing above; an interpretation of sched_vehicles in
+//   terms of vehicle_ids_grouped_and_sorted would discharge it via listing_follows); costs <= 2^61 in the partial case (premise);
+//   closure of the caller-side preconditions that are not part of rs_ok (tfu_pre's C09 clause for the unserved-passenger pair,
+//   A-counter); listed_ok for every vehicle is preserved (listings_kept) but not established; connectedness of the new dummy tour
 //   (A-path / D9); that the callers establish listed_ok in the whole-tour case; the error messages.
-//   slices/swaps_sem.vs still stubs remove_segment with the PREVIOUS contract text (to be synced; env/remove_segment_shim.vs
-//   keeps the now unused `spec_replace_by_dummy` for it).
+//   The stub of replace_vehicle_by_dummy carries the contract text of slices/dummy_ops.vs WITHOUT the closure clauses that slice
+//   gained in parallel (a subset of its ensures, same requires: sound; stub_sync reports the difference); they are not needed here.
+//   slices/swaps.vs / swaps_sem.vs stub remove_segment without the closure clauses added here (merely weaker).
 #![feature(allocator_api)]
 use vstd::prelude::*;
 use std::ops::Add;
@@ -361,6 +391,8 @@ use self::tfu::*;
         final(dummy_tours)@ == old(dummy_tours)@.insert(new_dummy_idx, new_dummy_tour), // @obl C13.add_dummy_tour.tour_stored_under_id
         ids_gain(old(dummy_ids_sorted)@, final(dummy_ids_sorted)@, new_dummy_idx), // @obl C13.add_dummy_tour.id_list_gains_exactly_id
         sorted_cmp(final(dummy_ids_sorted)@), // @obl C13.add_dummy_tour.id_list_stays_sorted
+        // CLOSURE: the only schedule invariant among the preconditions (the id list is sorted) holds again
+        sorted_cmp(final(dummy_ids_sorted)@), // @obl C10.add_dummy_tour.result_satisfies_the_schedule_invariants_again
 //@closure unwrap_or_else#0
     -> (q: usize) ensures q == e
 //@first
@@ -476,15 +508,63 @@ use self::tfu::*;
             usage_exact(r->Ok_0.depot_usage@, &self.network, r->Ok_0.vehicles@, r->Ok_0.tours@), // @obl C09.remove_segment.depot_usage_exact
         self.removes(segment, vehicle_idx) && r is Ok ==>
             self.transitions_follow(vehicle_idx, r->Ok_0.next_period_transitions@, r->Ok_0.maintenance_violation, r->Ok_0.vehicles@, r->Ok_0.tours@), // @obl C10.remove_segment.transitions_follow_new_tours
+
+        // ---- CLOSURE (the induction step of C10 "after any sequence of schedule modifications", C09 / C11 "for every reachable
+        // schedule"): the result satisfies the schedule-invariant bundle rs_ok = sched_ok + ids_ok + formations_ok + transitions_ok +
+        // usage_exact AGAIN, conjunct by conjunct (sched_ok in its five groups so_network / so_vehicles / so_listing / so_costs_cover /
+        // so_costs_small: lemma_sched_ok_split).  Proved from the effect clauses above (rs_effect) in env/remove_segment_shim.vs,
+        // block CLOSURE; both cases.  (`r is Ok` implies `removes`: the first two clauses.)
+        // network (never modified), and every stored tour is the valid tour of a real vehicle held by a consistent cycle structure
+        r is Ok ==> r->Ok_0.network == self.network && r->Ok_0.so_network(), // @obl C10.remove_segment.result_satisfies_the_schedule_invariants_again
+        r is Ok ==> r->Ok_0.so_vehicles(), // @obl C10.remove_segment.result_satisfies_the_schedule_invariants_again
+        // ids
+        r is Ok ==> r->Ok_0.ids_ok(), // @obl C10.remove_segment.result_satisfies_the_schedule_invariants_again
+        // formations: every activity has one, it lists the vehicles whose tours contain the node
+        r is Ok ==> r->Ok_0.formations_ok(), // @obl C10.remove_segment.result_satisfies_the_schedule_invariants_again
+        // depot usage (C09)
+        r is Ok ==> usage_exact(r->Ok_0.depot_usage@, &r->Ok_0.network, r->Ok_0.vehicles@, r->Ok_0.tours@), // @obl C10.remove_segment.result_satisfies_the_schedule_invariants_again
+        // rotation cycles (C15 / C10 / C09), including the magnitude "fewer than 2^17 vehicles" (no vehicle is added)
+        r is Ok ==> r->Ok_0.transitions_ok(), // @obl C10.remove_segment.result_satisfies_the_schedule_invariants_again
+        // listings, vehicle by vehicle (NOT a conjunct of rs_ok: the whole-tour-case precondition listed_ok of the next
+        // modification): every vehicle that stays and was listed in the sorted id list of its type still is
+        r is Ok ==> self.listings_kept(&r->Ok_0), // @obl C10.remove_segment.result_satisfies_the_schedule_invariants_again
+        // listings (sched_ok: the listing is duplicate-free and matches the stored tours; at most 2^17 vehicles) and C09 (the costs
+        // cover the tours' costs) -- UNDER THE PREMISE A-listing = listing_exact(result), the first two of these conjuncts themselves:
+        // sched_vehicles is an UNINTERPRETED function of the schedule, so nothing about the listing of the result follows from the
+        // effect clauses; the number of vehicles and the cost sum ARE derived from it
+        r is Ok && listing_exact(&r->Ok_0) ==> r->Ok_0.so_listing() && r->Ok_0.so_costs_cover(), // @obl C10.remove_segment.result_satisfies_the_schedule_invariants_again
+        // (a sufficient condition for A-listing in terms of the old listing: the listing of the result follows the grouped id lists,
+        // whose change is proved: unchanged in the partial case, one occurrence of the id taken out in the whole-tour case)
+        r is Ok && self.listing_follows(segment, vehicle_idx, &r->Ok_0) ==> listing_exact(&r->Ok_0), // @obl C10.remove_segment.result_satisfies_the_schedule_invariants_again
+        // magnitude costs <= 2^61: an invariant of the whole-tour case only (the costs shrink by the tour's costs); in the partial
+        // case the shrunk tour may cost more than the old one (no triangle inequality is assumed): there the conjunct is the
+        // premise `r->Ok_0.costs <= sched_cost_bound()` of the clause below
+        // (a sufficient condition in the partial case: the shrunk tour does not cost more than the old one)
+        r is Ok && (self.whole_tour(segment, vehicle_idx) || r->Ok_0.tours@[vehicle_idx].costs <= self.tours@[vehicle_idx].costs)
+            ==> r->Ok_0.costs <= self.costs && r->Ok_0.so_costs_small(), // @obl C10.remove_segment.result_satisfies_the_schedule_invariants_again
+        // the bundle as the next modification requires it
+        r is Ok && listing_exact(&r->Ok_0) && r->Ok_0.costs <= sched_cost_bound() ==> r->Ok_0.rs_ok(), // @obl C10.remove_segment.result_satisfies_the_schedule_invariants_again
 //@first
         hide(Schedule::rs_ok);
+        hide(Schedule::so_vehicles);
+        hide(Schedule::so_listing);
+        hide(Schedule::so_costs_cover);
+        hide(Schedule::formations_ok);
+        hide(Schedule::transitions_ok);
+        hide(Schedule::listings_kept);
+        hide(Schedule::listing_follows);
+        hide(listing_exact);
         hide(Schedule::upd_pre);
         hide(Schedule::transitions_follow);
         hide(Schedule::shrunk_counter_ok);
         hide(usage_exact);
         let ghost t0 = self.tours@[vehicle_idx];
         let ghost removed = self.removed_nodes(segment, vehicle_idx);
-        proof { if self.vehicles@.contains_key(vehicle_idx) { lemma_provider(self, vehicle_idx); } }
+        proof {
+            if self.vehicles@.contains_key(vehicle_idx) { lemma_provider(self, vehicle_idx); }
+            // CLOSURE: for every result that the effect clauses describe (rs_effect), offered at both exits
+            lemma_closure(self, segment, vehicle_idx);
+        }
 //@before "match shrinked_tour"
         proof {
             assert(*tour == t0);
